@@ -677,6 +677,13 @@ class Gen(object):
         d = self.r.choice([1, 1, 2, 3, 7, 8, 10, 125, 1000])
         return [self.r.choice([-1, 1]) * n, d]
 
+    def scale_k(self, ops):
+        """a scalar for Scale(k): after two scalings only factors made of 2, 3, 5, so that the exact mantissa the
+        spec carries (the part of the magnitude coprime to 2, 3, 5) stays far below TLC's 32-bit integers"""
+        if sum(1 for o in ops if o["op"] == "scale") >= 2:
+            return self.r.choice([[2, 1], [1, 2], [-10, 1], [5, 3], [1, 1000], [-3, 8]])
+        return self.rational()
+
     PLAIN_UNITS = [[], [{"n": "percent", "p": 1}], [{"n": "m", "p": 1}, {"n": "mm", "p": -1}], [{"n": "mm", "p": 1}, {"n": "m", "p": -1}],
                    [{"n": "min", "p": 1}, {"n": "s", "p": -1}], [{"n": "mol", "p": 1}, {"n": "umol", "p": -1}],
                    [{"n": "g", "p": 2}, {"n": "kg", "p": -1}, {"n": "mg", "p": -1}], [{"n": "h", "p": -1}, {"n": "ms", "p": 1}],
@@ -687,7 +694,7 @@ class Gen(object):
         ops = []
         for _ in range(self.r.randint(1, self.max_ops)):
             if self.r.random() < 0.25:
-                ops.append({"op": "scale", "k": self.rational()})
+                ops.append({"op": "scale", "k": self.scale_k(ops)})
                 continue
             tw = self.r.choice(["number", "scaled", "unit", "unit"])
             k = [1, 1] if tw == "unit" else self.r.choice([[1, 1000000000], [1000, 1], [1, 100], [2, 1], [5, 3], [1, 1], [7, 1000]])
@@ -724,7 +731,7 @@ class Gen(object):
                 ops.append({"op": "via", "u1": u1, "u2": u2})
                 cur = u2
             elif k == "scale":
-                ops.append({"op": "scale", "k": self.rational()})
+                ops.append({"op": "scale", "k": self.scale_k(ops)})
             elif k == "back":
                 ops.append({"op": "back"})
                 cur = ux
